@@ -139,3 +139,29 @@ def specLex (prios : List Nat) (D : Vec) (cb : Callbacks) (utf8 : Bool) (inp : L
   lexAll (scanAttempt prios D inp) cb utf8 inp
 
 end Logos
+
+namespace Logos
+
+/-- some byte keeps some pattern satisfiable -/
+def extendable (Δ : Vec) : Bool := (List.range 256).any fun b => viableV (derivV b Δ)
+
+/-- Reference scan over a *prefix* of the input (partial lexer): like `scan`, but when the buffer ends
+while more input could still change the outcome (`extendable`), the answer is "need more". -/
+def scanP (prios : List Nat) : Vec → List Nat → Nat → Rec → Option (Rec × Nat)
+  | Δ, [], k, best => if extendable Δ then none else some (best, k)
+  | Δ, b :: w, k, best =>
+    let Δ' := derivV b Δ
+    if viableV Δ' then scanP prios Δ' w (k+1) (upd prios Δ' (k+1) best)
+    else some (best, k)
+
+def scanAttemptP (prios : List Nat) (D : Vec) (inp : List Nat) (start : Nat) : Attempt :=
+  match scanP prios D (inp.drop start) start none with
+  | none => .needMore
+  | some (some (e, l), _) => .matched l e
+  | some (none, off) => if inp.length ≤ start then .eoi else .nomatch off
+
+/-- reference partial lexer -/
+def specLexP (prios : List Nat) (D : Vec) (cb : Callbacks) (utf8 : Bool) (inp : List Nat) :=
+  lexAll (scanAttemptP prios D inp) cb utf8 inp
+
+end Logos
